@@ -66,7 +66,7 @@ TEXT = {
          'note': COMMON_NOTE + 'window lengths in time.'},
  'C15': {'ref': '4.D C15', 'technique': 'static analysis: set comparison partial-keywords vs keyword-only parameters over sibling decorators, def-use chains, registry shape',
          'level': 'For the three option decorators the functools.partial returned for func=None must bind exactly the keyword-only options to the same-named parameters; '
-                  'each option is followed from the decorator through the constructor to its point of use; the per-loop registry is a WeakKeyDictionary keyed by get_running_loop() with atomic create-and-store, a batcher is created only through the miss edge of the registry look-up, and the batcher a call is delegated to comes, on every path, from this activation\'s look-up or store (never from a variable written by an earlier call).',
+                  'each option is followed from the decorator through the constructor to its point of use; the per-loop registry is a WeakKeyDictionary keyed by get_running_loop() with atomic create-and-store, a batcher is created only through the miss edge of the registry look-up, and the batcher a call is delegated to comes, on every path, from this activation\'s look-up or store (never from a variable written by an earlier call); the wrapper is a coroutine function and forwards argument and key.',
          'note': COMMON_NOTE + '"behaves identically" as observable behaviour (follows only to the extent both forms then run the same code with the same bindings).'},
  'C03': {'ref': '4.C C03', 'technique': TECH + 'success-only-flag path rule, effect sets of the round set, value flow of dequeued producers through the gather idiom, thread-affinity classes',
          'level': 'The completion flag is settable only on the normal edge of the wrapped call; the round set is bound once and only grows; an Exception of the call is contained and leads back to the round loop; '
@@ -82,7 +82,7 @@ TEXT = {
  'C08': {'ref': '4.C C08', 'technique': TECH + 'who-may-call rule for the wrapped function, control dependence on the non-empty test, must-pass-through of a fresh timer, def-use of the timeout',
          'level': 'The wrapped function has one awaited call site inside the single daemon (spawned once); the call is control-dependent on the truthiness of the set passed; '
                   'it is reachable only through the expiry/cancel edge of a timer armed after the last dequeue, which is wait_for(queue.get(), self.timeout) with self.timeout the constructor option; '
-                  'drain precedes arming, drained producers are gathered before the timer is awaited, and a successful timed get goes back to the loop head.',
+                  'drain precedes arming, nothing suspends between the start of an iteration and arming, drained producers are gathered before the timer is awaited, and a successful timed get goes back to the loop head.',
          'note': COMMON_NOTE + 'every numeric timing claim (the call starts `timeout` after the last arrival; tie behaviour).'},
  'C16': {'ref': '4.E C16', 'technique': TECH + 'sibling protocol rule (producer/consumer/sentinel), must-pass-through on producer exits, lexical scope of the executor',
          'level': 'Both bridges are checked as one protocol: the sentinel put lies on every exit of each producer and after all element puts; the consumer\'s loop test is an identity comparison with the module sentinel and yields every other value unconditionally; '
@@ -91,7 +91,7 @@ TEXT = {
          'note': COMMON_NOTE + 'loop responsiveness as measured time; early abandonment of the generator by the consumer (outside the statement).'},
  'C17': {'ref': '4.E C17', 'technique': 'static analysis: path enumeration with facts over the atoms same/running/closed (truth table), lexical lock regions, double-check path rule, provenance of loop and awaitable arguments',
          'level': 'Every path through ensure_aw - with the function handed to the executor expanded in place, whatever its form (closure, module helper with arguments, operator.methodcaller, @contextmanager helper) - is classified by what evaluates the awaitable and must carry the guard facts of the dispatch table; the per-loop lock is released on every exit; run_until_complete/run_forever sites are inside `with _get_loop_lock(<same loop>)`; '
-                  'the lock table is written only under the creation lock through the miss edge of a locked re-probe, keyed by id(loop), and nothing but the finalizer registered at creation removes an entry; the awaitable reaches run_until_complete / run_coroutine_threadsafe with the target loop and every branch is `return await` without handlers; '
+                  'the lock table is written only under the creation lock through the miss edge of a locked re-probe, keyed by id(loop), and nothing but the finalizer registered at creation removes an entry; the awaitable reaches run_until_complete / run_coroutine_threadsafe with the target loop and every branch is `return await` without handlers (a handler in the worker must re-raise unchanged); '
                   'loop_in_thread returns only through the true edge of is_running(); the stopper uses call_soon_threadsafe(loop.stop) then joins.',
          'note': COMMON_NOTE + 'the TOCTOU between the is_running() test and the loop stopping/starting; completion under pool exhaustion.'},
  'C18': {'ref': '4.E C18', 'technique': 'static analysis: affine-use (ownership) analysis of one-shot iterator values along both paths of split',
@@ -100,7 +100,7 @@ TEXT = {
          'note': COMMON_NOTE + 'nothing material; tee/compress/map semantics are trusted stdlib.'},
  'C19': {'ref': '4.E C19', 'technique': 'static analysis: syntactic rules on the nested helpers with path checks, forbidden-call scan with positive control, default-argument resolution',
          'level': 'the string item is cut once at the first separator (split(sep, 1), partition(sep), or find(sep) with slices [:i] / [i + len(sep):]); a missing separator reaches `raise ValueError` on every path; the default parser resolves to ast.literal_eval and the module contains no eval/exec/compile/import/pickle/getattr call or reference '
-                  '(positive control must match); parse(x) is control-dependent on isinstance(x, str) and every Exception edge of it reaches `return x`, with x never re-bound on the way (the parser and the fallback see the caller\'s value); the parse_keys switch selects (parsed, parsed) vs (raw, parsed); mappings go through .items() and every item through the pair parser into dict().',
+                  '(positive control must match); parse(x) is control-dependent on isinstance(x, str) and every Exception edge of it reaches `return x`, with x never re-bound on the way (the parser and the fallback see the caller\'s value), every string reaches the parser, and a module-level guarded parser is handed the caller\'s parser at every use; the parse_keys switch selects (parsed, parsed) vs (raw, parsed); mappings go through .items() and every item through the pair parser into dict().',
          'note': COMMON_NOTE + 'extensional equality with a reference model on all inputs; behaviour of ast.literal_eval itself.'},
  'C20': {'ref': '4.E C20', 'technique': 'static analysis: call-shape rule on asyncio.gather, iteration provenance, control dependence of the yield',
          'level': 'gather_excs passes *aws unfiltered to asyncio.gather with the literal return_exceptions=True, iterates the awaited result directly, yields res if and only if isinstance(res, only) (no further condition); raise_first_exc forwards (aws, only) and raises the first value.',
